@@ -47,6 +47,35 @@ func init() {
 		"(*sync/atomic.Uint32).Add":           stubAtomicAdd,
 		"(*sync/atomic.Uint64).Add":           stubAtomicAdd,
 		"(*sync/atomic.Int32).CompareAndSwap": stubAtomicCAS,
+		"sync/atomic.CompareAndSwapInt32":     stubAtomicFnCAS,
+		"sync/atomic.CompareAndSwapInt64":     stubAtomicFnCAS,
+		"sync/atomic.CompareAndSwapUint32":    stubAtomicFnCAS,
+		"sync/atomic.StoreInt32":              func(e *Engine, c *callCtx) bool { e.store(c.st, c.args[0], c.args[1]); return true },
+		"sync/atomic.StoreInt64":              func(e *Engine, c *callCtx) bool { e.store(c.st, c.args[0], c.args[1]); return true },
+		"sync/atomic.StoreUint32":             func(e *Engine, c *callCtx) bool { e.store(c.st, c.args[0], c.args[1]); return true },
+		"sync/atomic.LoadInt32":               func(e *Engine, c *callCtx) bool { c.set(e.load(c.st, c.args[0])); return true },
+		"sync/atomic.LoadInt64":               func(e *Engine, c *callCtx) bool { c.set(e.load(c.st, c.args[0])); return true },
+		"sync/atomic.LoadUint32":              func(e *Engine, c *callCtx) bool { c.set(e.load(c.st, c.args[0])); return true },
+		"sync/atomic.AddInt32":                stubAtomicFnAdd,
+		"sync/atomic.AddInt64":                stubAtomicFnAdd,
+		"sync/atomic.AddUint32":               stubAtomicFnAdd,
+		"sync/atomic.AddUint64":               stubAtomicFnAdd,
+		// base64 of a byte string: injective opaque term of the bytes (concrete length)
+		"(*encoding/base64.Encoding).EncodeToString": func(e *Engine, c *callCtx) bool {
+			b := c.args[1].(SliceV)
+			n := e.mustConst(b.ln, "base64 input length")
+			if n == 0 {
+				c.set(StrV{k: strLit})
+				return true
+			}
+			arr := e.sliceArr(c.st, b)
+			bs := make([]Term, n)
+			for i := range bs {
+				bs[i] = arr.sel(e, e.idxAdd(b.off, e.idx(int64(i))))
+			}
+			c.set(StrV{k: strOpaque, tag: fmt.Sprintf("b64/%d", n), t: e.packBytes(bs)})
+			return true
+		},
 		// ----- time -----
 		"time.Now":                stubTimeNow,
 		"time.Since":              stubTimeSince,
@@ -339,6 +368,36 @@ func stubAtomicCAS(e *Engine, c *callCtx) bool {
 		do(other, !val)
 		e.push(other)
 	}
+	return true
+}
+
+func stubAtomicFnCAS(e *Engine, c *callCtx) bool {
+	cur := e.load(c.st, c.args[0])
+	eq := e.valEq(c.st, cur, c.args[1])
+	alive, val, other := e.branch(c.st, eq)
+	if !alive {
+		return true
+	}
+	do := func(s *State, v bool) {
+		if v {
+			e.store(s, c.args[0], c.args[2])
+		}
+		if c.res != nil {
+			s.top().locals[c.res] = BoolV{e.tb.Bool(v)}
+		}
+	}
+	do(c.st, val)
+	if other != nil {
+		do(other, !val)
+		e.push(other)
+	}
+	return true
+}
+
+func stubAtomicFnAdd(e *Engine, c *callCtx) bool {
+	n := e.ibin(token.ADD, e.load(c.st, c.args[0]).(IntV), c.args[1].(IntV))
+	e.store(c.st, c.args[0], n)
+	c.set(n)
 	return true
 }
 
